@@ -160,19 +160,17 @@ Proof.
   rewrite run_cons, IH, apos_step, len_cons. lia.
 Qed.
 
-(* the EOF flush adds at most a token whose position is the pending token's start *)
-Lemma flush_inv base st : Inv base st ->
-  toks_ok base (tpos st) (toks (flush st)) /\ Forall (fun pt => fst pt < apos st) (toks (flush st)).
+(* the white-space byte fed at EOF adds at most a token whose position is the pending
+   token's start; no position reaches the end of the data *)
+Lemma ws_inv base st : Inv base st ->
+  toks_ok base (tpos st) (toks (step st 10)) /\ Forall (fun pt => fst pt < apos st) (toks (step st 10)).
 Proof.
   intros H. destruct st as [m cu tp pa oc hx tk ap].
-  unfold flush, parse1. cbn [lmode].
-  destruct m;
-    unfold p_main, p_comment, p_literal, p_lithex, p_number, p_float, p_keyword, p_string, p_string1,
-           p_stringcr, p_wopen, p_wclose, p_hexstring;
-    cbn [span re_NONSPC re_EOL re_END_LITERAL re_END_NUMBER re_END_KEYWORD re_END_STRING re_END_HEX_STRING
-         re_HEX re_OCT_STRING negb Z.eqb Z.leb Z.compare Pos.compare Pos.compare_cont andb orb Pos.eqb];
-    unfold_setters; cbn [fst snd];
-    split_ifs; cbn [lmode cur tpos paren oct hexb toks apos fst snd]; inv_solve.
+  destruct m; unfold_all;
+    cbn [re_NONSPC re_EOL re_END_LITERAL re_END_NUMBER re_END_KEYWORD re_END_STRING re_END_HEX_STRING
+         re_HEX re_OCT_STRING negb Z.eqb Z.leb Z.compare Pos.compare Pos.compare_cont andb orb Pos.eqb
+         lookup ESC_STRING];
+    split_ifs; unfold_all; inv_solve.
 Qed.
 
 Fixpoint sorted_asc (l : list Z) : Prop :=
@@ -213,9 +211,9 @@ Theorem lex_positions pos data :
   sorted_asc (map fst (lex pos data)) /\
   forall pt, In pt (lex pos data) -> pos <= fst pt < pos + len data.
 Proof.
-  unfold lex, tokens_of.
+  unfold lex, tokens_of. rewrite run_app. change (run (run (init pos) data) [10]) with (step (run (init pos) data) 10).
   pose proof (run_inv pos data (init pos) (init_inv pos)) as HI.
-  destruct (flush_inv pos _ HI) as [Hok Hlt].
+  destruct (ws_inv pos _ HI) as [Hok Hlt].
   split.
   - eapply toks_ok_sorted. exact Hok.
   - intros pt Hin. apply in_rev in Hin. split.
@@ -238,22 +236,10 @@ Qed.
 Lemma run_shift k s : forall st, run (shift k st) s = shift k (run st s).
 Proof. induction s as [|c s IH]; intros st; [reflexivity|]. rewrite !run_cons, step_shift. apply IH. Qed.
 
-Lemma flush_shift k st : toks (flush (shift k st)) = map (shiftp k) (toks (flush st)).
-Proof.
-  destruct st as [m cu tp pa oc hx tk ap]. unfold shift, flush, parse1. cbn [lmode].
-  destruct m;
-    unfold p_main, p_comment, p_literal, p_lithex, p_number, p_float, p_keyword, p_string, p_string1,
-           p_stringcr, p_wopen, p_wclose, p_hexstring;
-    cbn [span re_NONSPC re_EOL re_END_LITERAL re_END_NUMBER re_END_KEYWORD re_END_STRING re_END_HEX_STRING
-         re_HEX re_OCT_STRING negb Z.eqb Z.leb Z.compare Pos.compare Pos.compare_cont andb orb Pos.eqb];
-    unfold_setters; cbn [fst snd];
-    split_ifs; cbn [lmode cur tpos paren oct hexb toks apos fst snd map shiftp]; reflexivity.
-Qed.
-
 (* C01/C14: reading the same bytes at another absolute offset changes positions only *)
 Theorem lex_offset pos data : lex pos data = map (shiftp pos) (lex 0 data).
 Proof.
   unfold lex, tokens_of.
   change (init pos) with (shift pos (init 0)) at 1.
-  - rewrite run_shift, flush_shift, map_rev. reflexivity.
+  rewrite run_shift. cbn [toks shift]. rewrite map_rev. reflexivity.
 Qed.
